@@ -11,7 +11,25 @@ m = ml.Molecule(name="g")
 for i, el in enumerate(["C", "O", "H"]):
     m.add_atom(ml.Atom(el, label=f"{el}{i}"), [1.25 * (i + 1), -1234.5 * i, 12345.0 + i], 0.0)
 m.connect(0, 1)
-if w.get("op") == "xyz-multi":
+if w.get("op") == "ensemble-units":
+    from io import StringIO
+    e = ml.ConformerEnsemble(m, n_conformers=2)
+    e.coords = np.stack([m.coords, m.coords + 1.5])
+    for fmt in ("xyz", "mol2"):
+        txt = getattr(e, f"dumps_{fmt}")()
+        for u in ("Bohr", "pm"):
+            for entry in ("loads", "load"):
+                arg = txt if entry == "loads" else StringIO(txt)
+                try:
+                    r = getattr(ml.ConformerEnsemble, f"{entry}_{fmt}")(arg, source_units=u, name="renamed")
+                except BaseException as ex:
+                    bad.append(f"ConformerEnsemble.{entry}_{fmt}(source_units={u!r}) raised {type(ex).__name__}")
+                    continue
+                if not np.allclose(r.coords, e.coords * APU[u], rtol=1e-4, atol=1e-9):
+                    bad.append(f"ConformerEnsemble.{entry}_{fmt}: text declared in {u}: {e.coords[0][0][0]} {u} read as {r.coords[0][0][0]:.6g} Angstrom, expected {e.coords[0][0][0] * APU[u]:.6g}")
+                if r.name != "renamed":
+                    bad.append(f"ConformerEnsemble.{entry}_{fmt}(name='renamed') returned an ensemble named {r.name!r}")
+elif w.get("op") == "xyz-multi":
     frames = [("O", "H", "H"), ("S", "H", "H"), ("H", "O", "H"), ("*", "C", "O"), ("C", "O", "O")]
     txt = ""
     for els in frames:
